@@ -23,7 +23,7 @@ import C01_sym as S
 from C01_sym import Sym, DUNDERS, MIRROR
 
 PID = "C01"
-PROP_FILES = ["Prop"]
+PROP_FILES = ["Prop", "PropLive"]
 ALLOWED_AXIOMS = []
 EXTRA_COQ_DIRS = []
 RULE = ("bin: every one of the 35 dunders x operand kind {Stream, list, tuple, generator, endless iterator, "
@@ -42,7 +42,13 @@ RULE = ("bin: every one of the 35 dunders x operand kind {Stream, list, tuple, g
         "zero divisors, negative shifts, complex orderings); two results of the same call on fresh objects are "
         "consumed alternately and must agree, the caller's containers must be unchanged; math: containers of "
         "equal-but-distinct numbers (1 / 1.0 / True / Fraction(1), 0.0 / -0.0, complex zero signs) preceded by a "
-        "call on the reversed container, compared type- and sign-exactly. Distinct = distinct case hash.")
+        "call on the reversed container, compared type- and sign-exactly. Round 3: family live = expressions over "
+        "Python lists that are appended to / extended / truncated / overwritten between construction and consumption "
+        "and between two pulls (also feedback memory: each output appended to an operand), on either side and nested, "
+        "against a pull machine with list-iterator semantics (non-trivial = some output and some mutation); zeros of "
+        "every kind, None, real-valued complex elements and scalars; a refused dunder call (TypeError / "
+        "NotImplemented) must leave the Stream unconsumed; Stream(Stream(..)) and Stream.copy() as self. "
+        "Distinct = distinct case hash.")
 EXHAUSTIVE = {"quick": False, "thorough": False}   # bin / ew / math grids are enumerated completely, expr trees are sampled
 trusted_base = [
   "element-level meaning of Python's operators, getattr, call and abs is an oracle (Section variables opsem, "
@@ -90,6 +96,10 @@ def mk_stream(al, src):
     return al.Stream(it.repeat(S.to_sym(src["v"]), len(src["fin"])))
   if via == "al_repeat":
     return al.repeat(S.to_sym(src["v"]), len(src["fin"]))
+  if via == "restream":                 # Stream(Stream(list)): the copy-constructor shares the iterator
+    return al.Stream(al.Stream(list(els)))
+  if via == "copy":                     # Stream.copy(): a tee of the original
+    return al.Stream(list(els)).copy()
   if via:
     return al.Stream(mk_exotic(al, via, els))
   if "fin" in src:
@@ -383,6 +393,12 @@ def gen_bin_exotic(tier):
   # the other itertools / builtin objects, on a representative subset of dunders, on either side
   lens = (0, 1, 3) if tier == "quick" else (0, 1, 2, 3, 4)
   for dname in EXOTIC_DUNDERS:
+    for via in ("restream", "copy"):
+      for m in (0, 2, 3):
+        for o in ({"kind": "list", "src": {"fin": svars("y", 2)}}, {"kind": "sym", "t": ["v", "k", 0]}):
+          yield {"dname": dname, "mode": "direct", "self": {"fin": svars("x", m), "via": via}, "others": [o],
+                 "tags": ["binary", "self-" + via, o["kind"], "exotic"]}
+  for dname in EXOTIC_DUNDERS:
     func, rev, _ = DUNDERS[dname]
     for kind in EXOTIC_OTHER + EXOTIC_INT + ["cycle"]:
       for ss in ((SELF_SRCS[0], SELF_SRCS[2], SELF_SRCS[4]) if tier != "quick" else (SELF_SRCS[2], SELF_SRCS[4])):
@@ -452,8 +468,15 @@ def run_bin(c):
     # two live results must not share any state
     twin = call_dunder(al, c["dname"], c["mode"], mk_stream(al, c["self"]), [operand_obj(al, o) for o in c["others"]])
   except Exception as e:
+    try:
+      if not still_intact(s, c["self"]):         # a refused call must leave the Stream as it was
+        return {"raise": "SelfConsumedByRefusedCall"}
+    except NameError:
+      pass
     return {"raise": type(e).__name__}
   if res is NotImplemented or type(res) is not al.Stream or type(twin) is not al.Stream:
+    if res is NotImplemented and not still_intact(s, c["self"]):
+      return {"raise": "SelfConsumedByRefusedCall"}
     return observe_stream(res, al)
   o1, o2 = observe_interleaved(res, twin, al)
   if o1 != o2:
@@ -463,6 +486,14 @@ def run_bin(c):
     if len(after) != len(before) or any(a is not b_ for a, b_ in zip(after, before)):
       return {"raise": "OperandMutated"}
   return o1
+
+
+def still_intact(s, src, cap=CAP):
+  """The Stream still delivers its source from the first item on."""
+  want = src.get("fin", src.get("cyc"))
+  want = want[:cap] if "fin" in src else [want[j % len(want)] for j in range(cap)]
+  got = [S.cval(v) for v in it.islice(iter(s), cap)]
+  return got == want
 
 
 def observe_interleaved(r1, r2, al, cap=CAP):
@@ -668,7 +699,177 @@ def lit_expr(c, o):
   return "(EC %s [] %s %s)" % (tree_lit(c["tree"]), L.nat(CAP), sobs_lit(o))
 
 
+# ------------------------------------------------------------------ family live
+LIVE_DUNDERS = ["__add__", "__rsub__", "__lt__", "__rmatmul__", "__pow__", "__radd__"]
+
+
+def live_scripts(a, b):
+  """Event scripts for a two-cell expression (cell 0 inside the Stream, cell 1 the other operand)."""
+  P = ["pull"]
+  n = lambda k: ["v", "n", k]
+  yield "grow-other-before", [["ext", 1, [n(0), n(1)]]] + [P] * 5
+  yield "grow-self-before", [["ext", 0, [n(0), n(1)]]] + [P] * 5
+  yield "grow-both-before", [["ext", 0, [n(0)]], ["ext", 1, [n(1), n(2)]]] + [P] * 5
+  yield "grow-between", [P, ["ext", 1, [n(0)]], P, P, ["ext", 0, [n(1), n(2)]], P, P, ["ext", 1, [n(3)]], P, P]
+  yield "dead-stays-dead", [P] * (min(a, b) + 1) + [["ext", 0, [n(0), n(1)]], ["ext", 1, [n(2), n(3)]], P, P]
+  yield "truncate-other", [P, ["trunc", 1, 1], P, P, ["ext", 1, [n(0)]], P]
+  yield "truncate-self", [["trunc", 0, 1], P, P, ["ext", 0, [n(0)]], P]
+  yield "setitem-ahead", [["set", 1, 0, n(0)], P, ["set", 1, 1, n(1)], ["set", 0, 1, n(2)], ["set", 0, 0, n(3)], P, P]
+  yield "feedback", [P, ["fb", 1], P, ["fb", 1], P, ["fb", 1], P, P]
+  yield "feedback-self", [P, ["fb", 0], P, ["fb", 0], P, P]
+
+
+def gen_live(tier, rng):
+  leaf = lambda c: {"n": "leaf", "cell": c}
+  for d in LIVE_DUNDERS:
+    rev = DUNDERS[d][1]
+    for a in range(3):
+      for b in range(3):
+        cells = [svars("x", a), svars("y", b)]
+        for shape in ("binl", "bin"):
+          for mode in (["direct"] if (shape == "bin" and rev) else ["direct", "syntax"]):
+            if shape == "binl":
+              tree = {"n": "binl", "d": d, "mode": mode, "e": leaf(0), "cell": 1}
+            else:
+              tree = {"n": "bin", "d": d, "mode": mode, "e": leaf(0), "o": leaf(1)}
+            for name, evs in live_scripts(a, b):
+              yield {"cells": cells, "tree": tree, "events": evs, "tags": [name, shape, "rev" if rev else "plain", mode]}
+  # the same list on both sides, a scalar node and a unary node above a live list, nesting
+  for name, evs in live_scripts(2, 2):
+    for tree in ({"n": "binl", "d": "__mul__", "mode": "syntax", "e": leaf(1), "cell": 1},
+                 {"n": "bins", "d": "__rsub__", "mode": "syntax", "c": ["c", 1], "e": {"n": "un", "d": "__neg__", "mode": "syntax", "e": leaf(1)}},
+                 {"n": "binl", "d": "__add__", "mode": "syntax", "cell": 1,
+                  "e": {"n": "binl", "d": "__rmul__", "mode": "direct", "cell": 0, "e": leaf(1)}},
+                 {"n": "bin", "d": "__sub__", "mode": "syntax", "e": {"n": "binl", "d": "__add__", "mode": "syntax", "e": leaf(0), "cell": 1},
+                  "o": {"n": "binl", "d": "__rtruediv__", "mode": "syntax", "e": leaf(1), "cell": 0}}):
+      yield {"cells": [svars("x", 2), svars("y", 2)], "tree": tree, "events": evs, "tags": [name, "nested"]}
+  # seeded random trees over three cells with random histories
+  for i in range(300 if tier == "quick" else 3000):
+    cells = [svars("c%d" % j, rng.randrange(0, 4)) for j in range(3)]
+    cnt = [0]
+    def tree(depth):
+      r = rng.random()
+      if depth == 0 or r < 0.15:
+        return leaf(rng.randrange(3))
+      d = rng.choice(BIN_DUNDERS)
+      rev_ = DUNDERS[d][1]
+      if r < 0.25:
+        return {"n": "un", "d": rng.choice(UN_DUNDERS), "mode": rng.choice(["direct", "syntax"]), "e": tree(depth - 1)}
+      if r < 0.35:
+        return {"n": "bins", "d": d, "mode": "direct", "c": ["v", "k", rng.randrange(3)], "e": tree(depth - 1)}
+      if r < 0.7:
+        return {"n": "binl", "d": d, "mode": rng.choice(["direct", "syntax"]), "e": tree(depth - 1), "cell": rng.randrange(3)}
+      return {"n": "bin", "d": d, "mode": "direct" if rev_ else rng.choice(["direct", "syntax"]),
+              "e": tree(depth - 1), "o": tree(depth - 1)}
+    evs = []
+    for _ in range(rng.randrange(5, 13)):
+      r = rng.random()
+      if r < 0.5:
+        evs.append(["pull"])
+      elif r < 0.75:
+        cnt[0] += 1
+        evs.append(["ext", rng.randrange(3), [["v", "n%d" % cnt[0], j] for j in range(rng.randrange(1, 3))]])
+      elif r < 0.83:
+        evs.append(["trunc", rng.randrange(3), rng.randrange(0, 3)])
+      elif r < 0.92:
+        cnt[0] += 1
+        evs.append(["set", rng.randrange(3), rng.randrange(0, 3), ["v", "n%d" % cnt[0], 0]])
+      else:
+        evs.append(["fb", rng.randrange(3)])
+    yield {"cells": cells, "tree": tree(1 + i % 3), "events": evs + [["pull"]], "tags": ["random"]}
+
+
+def live_build(al, t, cells):
+  n = t["n"]
+  if n == "leaf":
+    return al.Stream(cells[t["cell"]])          # Stream(list): holds iter(list)
+  e = live_build(al, t["e"], cells)
+  if n == "un":
+    return call_dunder(al, t["d"], t["mode"], e, [])
+  if n == "bins":
+    return call_dunder(al, t["d"], t["mode"], e, [S.to_sym(t["c"])])
+  if n == "binl":
+    return call_dunder(al, t["d"], t["mode"], e, [cells[t["cell"]]])   # the list object itself
+  if n == "bin":
+    return call_dunder(al, t["d"], t["mode"], e, [live_build(al, t["o"], cells)])
+  raise ValueError(n)
+
+
+def run_live(c):
+  import audiolazy as al
+  cells = [[S.to_sym(t) for t in l] for l in c["cells"]]
+  try:
+    res = live_build(al, c["tree"], cells)
+    itr = iter(res)
+  except Exception as e:
+    return {"raise": type(e).__name__}
+  outs, applied, last = [], [], None
+  for ev in c["events"]:
+    if ev[0] == "pull":
+      try:
+        last = S.cval(next(itr))
+        outs.append(last)
+      except StopIteration:
+        last = None
+        outs.append(None)
+      except Exception as e:
+        last = None
+        outs.append(["l", "raise:" + type(e).__name__])
+      applied.append(["pull"])
+    elif ev[0] == "ext":
+      cells[ev[1]].extend(S.to_sym(t) for t in ev[2])
+      applied.append(ev)
+    elif ev[0] == "fb":                         # feedback memory: the value just produced is appended
+      if last is not None:
+        cells[ev[1]].append(S.to_sym(last))
+        applied.append(["ext", ev[1], [last]])
+    elif ev[0] == "trunc":
+      del cells[ev[1]][ev[2]:]
+      applied.append(ev)
+    elif ev[0] == "set":
+      if ev[2] < len(cells[ev[1]]):
+        cells[ev[1]][ev[2]] = S.to_sym(ev[3])
+      applied.append(ev)
+  return {"outs": outs, "applied": applied}
+
+
+def live_tree_lit(t):
+  n = t["n"]
+  if n == "leaf":
+    return "(LLeaf %s 0 false)" % L.nat(t["cell"])
+  e = live_tree_lit(t["e"])
+  if n == "un":
+    return "(LUn %s %s)" % (L.string(t["d"]), e)
+  if n == "bins":
+    return "(LBinS %s %s %s)" % (L.string(t["d"]), e, S.term_lit(t["c"]))
+  if n == "binl":
+    return "(LBinL %s %s %s 0 false)" % (L.string(t["d"]), e, L.nat(t["cell"]))
+  return "(LBin %s %s %s)" % (L.string(t["d"]), e, live_tree_lit(t["o"]))
+
+
+def lit_live(c, o):
+  def ev_lit(ev):
+    if ev[0] == "pull":
+      return "EPull"
+    if ev[0] == "ext":
+      return "(EExtend %s %s)" % (L.nat(ev[1]), L.lst([S.term_lit(t) for t in ev[2]]))
+    if ev[0] == "trunc":
+      return "(ETrunc %s %s)" % (L.nat(ev[1]), L.nat(ev[2]))
+    return "(ESet %s %s %s)" % (L.nat(ev[1]), L.nat(ev[2]), S.term_lit(ev[3]))
+  heap = L.lst([L.lst([S.term_lit(t) for t in l]) for l in c["cells"]])
+  if "outs" not in o:
+    return "(LC %s %s [EPull] [Some (TLit %s)])" % (heap, live_tree_lit(c["tree"]), L.string("raise:" + o.get("raise", "?")))
+  return "(LC %s %s %s %s)" % (heap, live_tree_lit(c["tree"]), L.lst([ev_lit(e) for e in o["applied"]]),
+                               L.lst([L.option(t, S.term_lit) for t in o["outs"]]))
+
+
+def nontrivial_live(c, o):
+  outs = o.get("outs") or []
+  return any(t is not None for t in outs) and any(e[0] != "pull" for e in o.get("applied", []))
+
+
 # ------------------------------------------------------------------ family conc
+ZERO_POOL = [0, 0.0, Fraction(0), False, 0j, -0.0]
 POOLS = {
   "int": [7, -3, 2, 0, 12, 5],
   "bool": [True, False, True, True, False, False],
@@ -679,6 +880,12 @@ POOLS = {
 
 
 def conc_val(ty, j):
+  if ty == "zero":
+    return ZERO_POOL[j % len(ZERO_POOL)]
+  if ty == "none":
+    return None
+  if ty == "rcomplex":                  # a real-valued complex
+    return complex([1.0, -2.0, 0.5][j % 3], 0.0)
   return POOLS[ty][j % len(POOLS[ty])]
 
 
@@ -707,6 +914,7 @@ def gen_conc(tier, rng):
 
 
 MIXED_XS = [["int", 0], ["int", 3], ["float", 1], ["complex", 0], ["Fraction", 1], ["bool", 1], ["int", 1], ["float", 3]]
+MIXED_XS2 = [["zero", 0], ["zero", 1], ["zero", 2], ["zero", 3], ["zero", 4], ["zero", 5], ["none", 0], ["rcomplex", 0]]
 MIXED_YS = [["int", 3], ["float", 2], ["int", 1], ["int", 0], ["bool", 1], ["Fraction", 0], ["complex", 1], ["int", 2]]
 
 
@@ -719,12 +927,16 @@ def gen_conc_mixed(tier):
       for mode in ("direct", "syntax"):
         yield {"dname": dname, "mode": mode, "ty": "mixed", "xs": MIXED_XS, "other": None, "tags": ["unary", "mixed"]}
       continue
-    for sc in (["int", 3], ["int", 1], ["float", 0], ["int", 0], ["complex", 0], ["Fraction", 1], ["bool", 0]):
+    for sc in (["int", 3], ["int", 1], ["float", 0], ["int", 0], ["complex", 0], ["Fraction", 1], ["bool", 0],
+               ["rcomplex", 1], ["zero", 2]):
       for mode in ("direct", "syntax"):
-        if mode == "syntax" and dname == "__rpow__" and sc[0] == "Fraction":
+        if mode == "syntax" and dname == "__rpow__" and isinstance(conc_val(*sc), Fraction):
           continue     # Fraction.__pow__(q, stream) itself turns q into a float before Stream.__rpow__ is tried
-        yield {"dname": dname, "mode": mode, "ty": "mixed", "xs": MIXED_XS, "other": {"kind": "scalar", "ys": [sc]},
-               "tags": ["binary", "mixed", "scalar"]}
+        for xs in (MIXED_XS, MIXED_XS2):
+          if mode == "syntax" and xs is MIXED_XS2:
+            continue
+          yield {"dname": dname, "mode": mode, "ty": "mixed", "xs": xs, "other": {"kind": "scalar", "ys": [sc]},
+                 "tags": ["binary", "mixed", "scalar"]}
     for kind in ("list", "stream"):
       mode = "direct" if (rev and kind == "stream") else "syntax"
       yield {"dname": dname, "mode": mode, "ty": "mixed", "xs": MIXED_XS, "other": {"kind": kind, "ys": MIXED_YS},
@@ -1127,6 +1339,7 @@ MIXED = {
   "A": [1, 1.0, True, Fraction(1), -0.0, 0.0, 0, False],
   "B": [complex(-1, 0.), complex(-1, -0.), -2, -2.0, Fraction(-2), 0j, complex(0., -0.), complex(-2, -0.)],
 }
+MIXED["C"] = [0, Fraction(0), 0.0, False, 0j, complex(1., 0.), 1, Fraction(1)]   # zeros of every kind, real-valued complex
 MIXED["Ar"] = MIXED["A"][::-1]
 MIXED["Br"] = MIXED["B"][::-1]
 MIXED_KINDS = ["list", "tuple", "deque", "stream", "streamsub", "gen", "map", "filter"]
@@ -1251,6 +1464,8 @@ FAMILIES = collections.OrderedDict([
   ("bin", Family("bin", IMPORTS, "bcase", "corr_bin", "holds_bin", gen_bin, run_bin, lit_bin, nontrivial_bin)),
   ("expr", Family("expr", IMPORTS, "ecase", "corr_expr", "holds_expr", gen_expr, run_expr, lit_expr,
                   lambda c, o: tree_depth(c["tree"]) >= 2 and bool(o.get("items")))),
+  ("live", Family("live", IMPORTS + " From AL Require Import C01.Live C01.LiveCheck.", "lcase", "corr_live", "holds_live",
+                  gen_live, run_live, lit_live, nontrivial_live)),
   ("conc", Family("conc", IMPORTS, "bcase", "corr_bin", "holds_bin", gen_conc, run_conc, lit_conc, nontrivial_conc)),
   ("ew", Family("ew", IMPORTS, "wcase", "corr_ew", "holds_ew", gen_ew, run_ew, lit_ew, nontrivial_ew)),
   ("math", Family("math", IMPORTS, "mcase", "corr_math", "holds_math", gen_math, run_math, lit_math, nontrivial_math)),
